@@ -19,7 +19,7 @@ Log(op, j, o) == script' = Append(script, Lbl(op, j, o))
 SimInit == Init /\ script = <<>>
 
 SimNext ==
-  \/ Cancel /\ Log("cancel", 0, "")
+  \/ Cancel /\ RandomElement(1..12) = 1 /\ Log("cancel", 0, "")   \* rarely: Cancel is enabled in every state
   \/ CallerEnqueue /\ Log("enq", cpc, "")
   \/ CallerWaitClose /\ Log("close", 0, "")
   \/ (CallerWaitCtx \/ CallerWaitFin) /\ Log("ret", 0, "")
